@@ -283,13 +283,16 @@ Definition load_file (n : node) : option node := if loadable n then Some (load n
 (* ---- the recovery file on disk: PickleStorage._save / _load --------------------------------------
    A save first tries plain pickle (.pckl) and falls back to cloudpickle (.cpckl); a successful save of
    one flavour unlinks the file of the other flavour; a failed pickle attempt leaves nothing behind.  A
-   load looks for .pckl first.  Plain pickle fails iff some channel holds a value it cannot handle: here
-   the function of a leaf with k >= 1000 returns its number wrapped in a closure (consumers unwrap it),
-   so the image needs cloudpickle iff such a leaf holds an output. *)
-Definition is_clo (k : Z) : bool := (1000 <=? k)%Z.
+   load looks for .pckl first.  Plain pickle fails iff (a) some channel holds a value it cannot handle: here
+   the function of a leaf with 1000 <= k < 2000 returns its number wrapped in a closure (consumers unwrap
+   it), or (b) the class of some node cannot be imported: a leaf with 2000 <= k has a class made by a
+   factory function (it lives in <locals>; the graph is not import_ready).  The directory may already hold
+   the files of an earlier generation of the same-labelled graph. *)
+Definition is_clo (k : Z) : bool := (1000 <=? k)%Z && (k <? 2000)%Z.
+Definition is_loc (k : Z) : bool := (2000 <=? k)%Z.
 Fixpoint needs_cloud (n : node) : bool :=
   match n with
-  | Leaf k _ st => is_clo k && is_some (outv st)
+  | Leaf k _ st => is_loc k || (is_clo k && is_some (outv st))
   | Macro _ _ _ kids => existsb needs_cloud kids
   end.
 Record store := { f_pckl : option node; f_cpckl : option node }.
@@ -386,17 +389,38 @@ Fixpoint rounds (fixv : Z -> Z) (fuel : nat) (s : store) (t : node) : list obs :
 Definition twin (fixv : Z -> Z) (t : node) : obs :=
   let '(t1, evs, r) := attempt None (fixall fixv t) in OL [obs_res r; obs_node t1].
 
-Definition obs_fail (fuel : nat) (t : node) : obs :=
-  OL [OL (rounds Z.opp fuel store0 t); twin Z.opp t].
+(* what an earlier generation [g1] of the same-labelled graph left in the directory: the recovery file of its
+   failed run / the checkpoint its node [c] wrote *)
+Definition prior_fail (g1 : option node) : store :=
+  match g1 with
+  | None => store0
+  | Some g => let '(_, evs, _) := attempt None g in
+              fold_left (fun acc x => store_save acc (snd x)) (saves evs) store0
+  end.
+Definition prior_ckpt (c : path) (g1 : option node) : store :=
+  match g1 with
+  | None => store0
+  | Some g => let '(t1, _, r) := attempt (Some c) g in
+              match r with RCut => store_save store0 t1 | _ => store0 end
+  end.
 
-Definition obs_ckpt (fuel : nat) (pr : proto) (c : path) (t : node) : obs :=
+Definition obs_fail (fuel : nat) (g1 : option node) (t : node) : obs :=
+  OL [OL (rounds Z.opp fuel (prior_fail g1) t); twin Z.opp t].
+
+(* the checkpoint is loaded BY NAME from the directory it was written to *)
+Definition obs_ckpt (fuel : nat) (pr : proto) (c : path) (g1 : option node) (t : node) : obs :=
   let '(t1, evs, r) := attempt (Some c) t in
   match r with
   | RCut =>
-      match load_file t1 with
-      | Some l => OL [OS "cut"; OL (map obs_path (calls evs)); obs_node l;
-                      OL (rounds Z.opp fuel store0 (apply_proto pr (recover Z.opp l))); twin Z.opp t]
-      | None => OL [OS "cut"; OL (map obs_path (calls evs)); OS "unloadable"]
+      let s := store_save (prior_ckpt c g1) t1 in
+      match store_read s with
+      | Some img =>
+          match load_file img with
+          | Some l => OL [OS "cut"; OL (map obs_path (calls evs)); obs_store s; obs_node l;
+                          OL (rounds Z.opp fuel store0 (apply_proto pr (recover Z.opp l))); twin Z.opp t]
+          | None => OL [OS "cut"; OL (map obs_path (calls evs)); obs_store s; OS "unloadable"]
+          end
+      | None => OL [OS "cut"; OL (map obs_path (calls evs)); obs_store s; OS "nofile"]
       end
   | _ => OL [OS "nocut"; obs_res r]
   end.
